@@ -5,8 +5,9 @@
 (* the expected outcome is Gossip!Route, evaluated by GossipObs on the result. *)
 EXTENDS TLC, Json, Integers
 VARIABLE x
-Cases == [kind : {"msg", "ack"}, haveLocal : BOOLEAN, owner : {"", "self", "b"}, addr : BOOLEAN,
-          stream : BOOLEAN, memberlist : BOOLEAN]
+\* closed: the local stream has closed its channel but not yet deregistered it (the sender closes before its deferred removal)
+Cases == {c \in [kind : {"msg", "ack"}, haveLocal : BOOLEAN, closed : BOOLEAN, owner : {"", "self", "b"}, addr : BOOLEAN,
+                 stream : BOOLEAN, memberlist : BOOLEAN] : c.closed => c.haveLocal}
 Init == x = 0 /\ \A c \in Cases : PrintT(ToJson(c))
 Next == UNCHANGED x
 =============================================================================
